@@ -15,3 +15,58 @@ pub use observable::ObservableCommitment;
 pub(crate) use periodic::evaluate_periodic_columns_circuit;
 pub use quotient::recompose_quotient_from_chunks_circuit;
 pub use stark::verify_p3_uni_proof_circuit;
+
+/// Public wrappers over crate-private verifier gadgets, for the external verification
+/// harness. Compiled only with the `verif-hooks` feature.
+#[cfg(feature = "verif-hooks")]
+pub mod verif_hooks {
+    use alloc::vec::Vec;
+
+    use p3_circuit::CircuitBuilder;
+    use p3_commit::Pcs;
+    use p3_field::coset::TwoAdicMultiplicativeCoset;
+    use p3_field::{ExtensionField, TwoAdicField};
+    use p3_uni_stark::StarkGenericConfig;
+
+    use super::VerificationError;
+    use crate::Target;
+    use crate::traits::{Recursive, RecursivePcs};
+
+    pub fn evaluate_periodic_columns_circuit<Val, Challenge>(
+        circuit: &mut CircuitBuilder<Challenge>,
+        domain: &TwoAdicMultiplicativeCoset<Val>,
+        periodic_columns: &[Vec<Val>],
+        point: Target,
+    ) -> Result<Vec<Target>, VerificationError>
+    where
+        Val: TwoAdicField,
+        Challenge: ExtensionField<Val>,
+    {
+        super::periodic::evaluate_periodic_columns_circuit(circuit, domain, periodic_columns, point)
+    }
+
+    pub fn vanishing_poly_at_point_circuit<
+        SC: StarkGenericConfig,
+        InputProof: Recursive<SC::Challenge>,
+        OpeningProof: Recursive<SC::Challenge>,
+        Comm: Recursive<SC::Challenge>,
+    >(
+        pcs: &SC::Pcs,
+        domain: &<SC::Pcs as Pcs<SC::Challenge, SC::Challenger>>::Domain,
+        point: Target,
+        circuit: &mut CircuitBuilder<SC::Challenge>,
+    ) -> Target
+    where
+        SC::Pcs: RecursivePcs<
+                SC,
+                InputProof,
+                OpeningProof,
+                Comm,
+                <SC::Pcs as Pcs<SC::Challenge, SC::Challenger>>::Domain,
+            >,
+    {
+        super::quotient::verif_vanishing_poly_at_point_circuit::<SC, InputProof, OpeningProof, Comm>(
+            pcs, domain, point, circuit,
+        )
+    }
+}
